@@ -330,6 +330,7 @@ IFACE_BODIES = {
     "src/host.f90": ("module host\n  implicit none\n  type :: t\n    integer :: from_host\n  end type t\n  interface gen\n    subroutine body_a(x)\n      use other, only: t\n      type(t) :: x\n"
                      "    end subroutine body_a\n    subroutine body_b(y)\n      use other\n      type(t) :: y\n    end subroutine body_b\n  end interface gen\n"
                      "  interface\n    subroutine single(z)\n      use other, only: t\n      type(t) :: z\n    end subroutine single\n  end interface\n"
+                     "  abstract interface\n    subroutine callback(u)\n      use other, only: t\n      type(t) :: u\n    end subroutine callback\n  end interface\n"
                      "contains\n  subroutine plain(w)\n    type(t) :: w\n  end subroutine plain\nend module host\n"),
 }
 BLOCK_TYPE = {
@@ -348,7 +349,8 @@ def interface_body_uses():
     gen = _find(mods["host"].interfaces, "gen")
     bodies = {r.name: r for r in gen.routines}
     single = [i for i in mods["host"].interfaces if getattr(i, "procedure", None) is not None and i.procedure.name == "single"][0].procedure
-    for nm, proc in list(bodies.items()) + [("single", single)]:
+    callback = [i for i in mods["host"].absinterfaces if i.procedure.name == "callback"][0].procedure
+    for nm, proc in list(bodies.items()) + [("single", single), ("callback", callback)]:
         a = proc.args[0]
         if getattr(a, "proto", None) is None or a.proto[0] is not other_t:
             bad.append(f"host::{nm}: type(t) of the dummy argument resolves to {('text ' + repr(a.proto[0])) if isinstance(getattr(a, 'proto', [None])[0], str) else 'the type t of host'}, "
